@@ -382,8 +382,13 @@ def _edits(sl):
             yield sl[:i] + [[role, "2"]] + sl[i + 1:]
         if role == "dens" and text and text.strip("ni") != "@1":
             yield sl[:i] + [[role, "@1" + text[len(text.rstrip("ni")):]]] + sl[i + 1:]
-        if role == "sym" and text != "H" and not sl[i + 1][1]:
-            yield sl[:i] + [[role, "H"]] + sl[i + 1:]
+        if role == "sym":
+            # canonical symbols: H for the first element, O for the others (strictly decreasing rank)
+            first = not any(r == "sym" for r, _ in sl[:i])
+            pref = ("H", "O") if first else ("O", "H")
+            rank = pref.index(text) if text in pref else 9
+            for cand in pref[:rank]:
+                yield sl[:i] + [[role, cand]] + sl[i + 1:]
 
 
 def shrink(env, ast, what):
